@@ -32,7 +32,7 @@ TypeEv ==
 
 DecodeEv ==
     /\ IsEvent("decode")
-    /\ Cardinality(DOMAIN ids) >= 11                           \* the supported set has been established
+    /\ Cardinality(DOMAIN ids) >= 1                            \* the supported set has been established (from the type events)
     /\ LET b == E.bytes IN
        IF Len(b) # 16 THEN E.r.res = "WrongConfigLength" /\ E.r.expected = 16 /\ E.r.actual = Len(b)
        ELSE IF <<b[1], b[2]>> \in DOMAIN ids THEN E.r.res = ids[<<b[1], b[2]>>]
